@@ -121,6 +121,58 @@ def load_text(schema, text, overrides=(), url=None, want_objects=False):
     return ("ok", tree, entries, (config, handler, containers))
 
 
+def _finish(fn):
+    try:
+        r = fn()
+    except Exception as e:  # noqa
+        fam, tn, lineno, eurl = classify_exception(e)
+        return ("reject", fam, tn, lineno, eurl, str(e)[:200], e)
+    config, handler = r
+    containers = []
+    tree = canon_value(config, None, containers)
+    entries = [[h, canon_value(v)] for h, v in handler._handlers]
+    return ("ok", tree, entries, (config, handler, containers))
+
+
+def write_text(path, text, pad=0):
+    """Write *text* as UTF-8 with '\n' line ends kept as they are; with
+    *pad*, comment and blank lines are put in front until the text starts
+    beyond that many bytes."""
+    with open(path, "w", encoding="utf-8", newline="\n") as f:
+        n = 0
+        i = 0
+        while n < pad:
+            i += 1
+            line = "# padding line %d %s\n" % (i, "." * (i % 61)) \
+                if i % 7 else "\n"
+            f.write(line)
+            n += len(line)
+        f.write(text)
+    return path
+
+
+def load_path(schema, path, overrides=()):
+    """Load the file at *path* (or URL) with ZConfig.loadConfig."""
+    import ZConfig
+    if overrides:
+        return _finish(lambda: ZConfig.loadConfig(schema, path,
+                                                  overrides=overrides))
+    return _finish(lambda: ZConfig.loadConfig(schema, path))
+
+
+def load_open_file(schema, path, overrides=(), url=None):
+    """Load through ZConfig.loadConfigFile on a real open file."""
+    import ZConfig
+
+    def go():
+        with open(path, encoding="utf-8", newline="\n") as f:
+            if overrides:
+                return ZConfig.loadConfigFile(schema, f, url,
+                                              overrides=overrides)
+            return ZConfig.loadConfigFile(schema, f, url)
+    return _finish(go)
+
+
 def outcome_key(o):
     """What metamorphic checks compare: the tree, or the fact of rejection
     by a configuration error."""
